@@ -256,6 +256,16 @@ def run(p, report, tier):
         da = DefiniteAssignment(_it(fn.node)).run()
         report.add("R1.7", fn.qual, "all locals bound before use", f"{fn.file}:{fn.node.lineno}", not da.reports,
                    detail="; ".join(f"{k} unbound" for k in da.reports))
+    report.rule("R17.6", "the mask of missing entries all three aggregation utilities rely on is right for every legal "
+                "sentinel and dtype: is_unlabeled has exactly one NaN-test path and one equality path, dispatched on the "
+                "sentinel being NaN (shared with C16 R16.2)", floor=3)
+    from ..common import Report
+    from . import c16 as _c16
+    sub16 = Report("C16")
+    _c16.run(p, sub16, "quick")
+    for o in sub16.obligations:
+        if o.rule == "R16.2":
+            report.add("R17.6", o.entity, o.construct, o.loc, o.ok, detail=o.detail)
     report.assumptions += ["sklearn.metrics.confusion_matrix and np.bincount are trusted to count",
                            "equality with the counting specification as numbers is not decided"]
 
@@ -318,6 +328,14 @@ def check_vote_weights(p, report):
                     and s_.value.value == 0 and any(isinstance(c, ast.Call) and c01.callname(c) in ("isnan", "np.isnan")
                                                     and c.args and w in names_in(c.args[0])
                                                     for c in ast.walk(s_.targets[0].slice))]
+        inf_zero = [s_ for s_ in stores if isinstance(s_.targets[0], ast.Subscript) and isinstance(s_.value, ast.Constant)
+                    and s_.value.value == 0 and any(isinstance(c, ast.Call) and c01.callname(c) in ("isfinite", "np.isfinite", "isinf", "np.isinf")
+                                                    for c in ast.walk(s_.targets[0].slice))]
+        if inf_zero:
+            report.add("R17.2", g.qual, f"only missing / NaN entries of `{w}` are zeroed", f"{g.file}:{inf_zero[-1].lineno}", False,
+                       detail=f"`{norm_stmt(inf_zero[-1], 70)}` also zeroes INFINITE weights: a class backed by an infinite "
+                              f"confidence gets the count 0 instead of inf and loses the vote")
+            nan_zero = nan_zero or inf_zero
         nan_zero += [s_ for s_ in stores if isinstance(s_.targets[0], ast.Name) and any(
             isinstance(c, ast.Call) and c01.callname(c) in ("nan_to_num", "np.nan_to_num") for c in ast.walk(s_.value))]
         report.add("R17.2", g.qual, f"NaN weights in `{w}` are zeroed before np.bincount", f"{g.file}:{bc.lineno}",
